@@ -56,6 +56,7 @@ def eval (F : Facts) : List String → Option String
     -- kernel rule (not the library's): a TCP 4-tuple closed by the client stays in TIME_WAIT, a second
     -- connection from the same fixed source port to the same endpoint is refused
     some "first:ok second:err"
+  | ["lockfail", _] => some "first:err second:ok"     -- a failed dial gives the shared port back
   | ["lock", path, _] => do
     let mf ← (match path with
       | "broadcast" => some F.broadcastTo | "udp" => some F.sendUDP | "tcp" => some F.sendTCP | _ => none)
